@@ -25,6 +25,13 @@ def with_parts(rng, cfg):
         if rng.random() < 0.6:       # observed rows of the parameter the equation reads: they belong to the observation term only
             cfg["obs"]["arows"] = [dy(rng, 2, 6) for _ in range(n)]
     cfg["dyn"] = rng.random() < 0.9
+    if rng.random() < 0.12:       # a residual that vanishes identically on the batch: the dynamic term is exactly 0 (not NaN)
+        cfg["res"] = [({(0,) * nv: 0}, 0) for _ in cfg["res"]]
+    elif rng.random() < 0.1 and len(cfg["batch"]) >= 2:      # ... or on half of the batch (the residual is q(z) = z_0 - c, points with z_0 = c)
+        c0 = cfg["batch"][0][0]
+        for row in cfg["batch"][: len(cfg["batch"]) // 2]:
+            row[0] = c0
+        cfg["res"] = [({(1,) + (0,) * (nv - 1): 1, (0,) * nv: -c0}, 0) for _ in cfg["res"]]
     if rng.random() < 0.25 and not cfg.get("reweight"):
         cfg["omit_unit_weights"] = True           # weights equal to 1 are left to their documented default
         if not isinstance(cfg["w_dyn"], list) and rng.random() < 0.5:
